@@ -54,13 +54,18 @@ def nasty_quick_cases(rng, n):
     shapes = shape_info()
     single_top = [i for i, (d, k, f) in enumerate(shapes)
                   if len(f) == 1 and d > 1]
+    # two or more single-node levels on top of a level with a real choice
+    top_chain2 = [i for i, (d, k, f) in enumerate(shapes)
+                  if d >= 3 and k >= 2 and len(f) == 1 and len(f[0]) == 1]
     chains = [i for i, (d, k, f) in enumerate(shapes) if k == 1 and d > 1]
     one_level = [i for i, (d, k, f) in enumerate(shapes) if d == 1]
     deep = [i for i, (d, k, f) in enumerate(shapes) if d == 4 and k >= 5]
     out = []
     for i in range(n):
         sel = i % 8
-        if sel == 0:
+        if sel == 0 and i % 16 == 8:
+            si = int(rng.choice(top_chain2))
+        elif sel == 0:
             si = int(rng.choice(single_top))
         elif sel == 1:
             si = int(rng.choice(chains))
@@ -84,7 +89,9 @@ def nasty_quick_cases(rng, n):
             spec['n_processors'] = 5
             spec['n_cells'] = 2
         r = rng.random()
-        if d > 1 and r < 0.3:
+        if sel == 0 and i % 16 == 8:
+            pass            # keep the chain on top as it is
+        elif d > 1 and r < 0.3:
             spec['flatten'] = True
         elif d > 1 and r < 0.7:
             spec['drop_level_index'] = int(rng.integers(0, d - 1))
